@@ -23,6 +23,7 @@ type Clause struct {
 	Expr  ast.Expr
 	File  string
 	Line  int
+	Optional bool // `invariant?`: dropped when it names a variable the function does not have
 }
 
 type Contract struct {
@@ -218,6 +219,11 @@ func parseContractComments(cs *ContractSet, fset *token.FileSet, pkgPath string,
 					}
 					kind := fields[2]
 					rawKind := kind
+					optional := false
+					if strings.HasSuffix(kind, "?") {
+						optional = true
+						kind = strings.TrimSuffix(kind, "?")
+					}
 					if mm := tagRe.FindStringSubmatch(kind); mm != nil {
 						kind = mm[1]
 						if mm[2] != "" {
@@ -232,7 +238,7 @@ func parseContractComments(cs *ContractSet, fset *token.FileSet, pkgPath string,
 					r := strings.TrimSpace(rest)
 					r = strings.TrimSpace(strings.TrimPrefix(r, fields[1]))
 					r = strings.TrimSpace(strings.TrimPrefix(r, rawKind))
-					cl := &Clause{Kind: kind, Loop: n, Tags: ctags, Text: r, File: fname, Line: line}
+					cl := &Clause{Kind: kind, Loop: n, Tags: ctags, Text: r, File: fname, Line: line, Optional: optional}
 					cl.Label, cl.Text = splitLabel(cl.Text)
 					cur.Clauses = append(cur.Clauses, cl)
 					lastClause = cl
